@@ -742,6 +742,10 @@ class Executor:
       if isinstance(t, ast.Subscript):
         obj = self.ev(t.value)
         k = self.ev_index(t.slice)
+        if self.world._treeish(obj):
+          from pyvc import tree as _tree
+          _tree.node_method(self, obj, 'pop', [k], {}, s)
+          continue
         if isinstance(obj, VDict):
           if not self.path.decide(obj.has(k)):
             self.py_raise('KeyError', s)
